@@ -123,7 +123,7 @@ pub fn decode(family: Family, big: bool, data: &[u8]) -> Option<Case> {
                     let mb = if c % 5 == 4 { Mailbox::Unbounded } else { Mailbox::Bounded(c % 5) };
                     match &mut case.actors[ai].spawn {
                         SpawnSpec::Build { mailbox, .. } => *mailbox = mb,
-                        SpawnSpec::Stream { builder: Some(m), .. } | SpawnSpec::Register { builder: Some(m) } => *m = mb,
+                        SpawnSpec::Stream { builder: Some(m), .. } | SpawnSpec::Register { builder: Some(m), .. } => *m = mb,
                         _ => {}
                     }
                 }
